@@ -242,6 +242,10 @@ func WithAutoXOrder(specPath string) string {
 	}
 
 	tmpFile := filepath.Join(tmpDir, filepath.Base(specPath))
+	if !swag.YAMLMatcher(tmpFile) {
+		// what is written is a YAML document, whatever the input was: name it so, for loaders to read it as YAML
+		tmpFile += ".yml"
+	}
 	if err := os.WriteFile(tmpFile, out, 0o600); err != nil {
 		panic(err)
 	}
